@@ -2,10 +2,11 @@ package c27
 
 // C27: CDC events describe exactly the rows changed.
 //
-// Real side: a WAL file database opened with db.Open, a db.CDCStreamer wired
-// exactly as the Store wires it (RegisterPreUpdateHook with table filter and
-// row-ids-only flag, RegisterCommitHook, streamer.Reset(index) before every
-// request), write requests run through DB.Execute / DB.Request.
+// Real side: a real single-node Store with Store.EnableCDC(channel, table
+// filter, row-ids-only); write requests go through Store.Execute /
+// Store.Request (raft log, FSM apply, CDC streamer and hooks as wired by the
+// Store itself). The events produced for a write are the groups that arrive on
+// the channel while that request runs.
 //
 // Oracle: replay. The committed state of every table is read with the raw
 // driver (separate connection) before and after each request. The event
@@ -29,7 +30,10 @@ import (
 	"encoding/base64"
 	"encoding/json"
 	"fmt"
+	"io"
+	"log"
 	"math"
+	"net"
 	"os"
 	"path/filepath"
 	"regexp"
@@ -37,12 +41,13 @@ import (
 	"strconv"
 	"strings"
 	"testing"
+	"time"
 
 	cdcjson "github.com/rqlite/rqlite/v10/cdc/json"
 	command "github.com/rqlite/rqlite/v10/command/proto"
-	rdbpkg "github.com/rqlite/rqlite/v10/db"
 	"github.com/rqlite/rqlite/v10/internal/verif/vsql"
 	"github.com/rqlite/rqlite/v10/internal/verif/vstat"
+	"github.com/rqlite/rqlite/v10/store"
 	"pgregory.net/rapid"
 )
 
@@ -340,19 +345,36 @@ func c27RenderCDC(r *command.CDCRow) string {
 	return "[" + strings.Join(parts, " ") + "]"
 }
 
-func c27RowEq(raw c27Row, r *command.CDCRow) bool {
+func c27RowEq(table string, raw c27Row, r *command.CDCRow) bool {
 	if r == nil || len(r.Values) != len(raw) {
 		return false
 	}
-	for i := range raw {
-		if !c27ValEq(raw[i], r.Values[i]) {
+	for _, v := range r.Values {
+		if _, isBool := v.GetValue().(*command.CDCValue_B); isBool {
 			return false
 		}
 	}
-	return true
+	return c27RawRowEq(raw, c27RowFromCDC(table, r))
 }
 
-func c27RowFromCDC(r *command.CDCRow) c27Row {
+// c27RealCols: columns with REAL affinity. SQLite keeps an integer-valued REAL
+// of such a column as an integer inside the record and the preupdate hook may
+// hand out that integer (sqlite3_preupdate_new on INSERT); reading the column
+// always gives the REAL. An integer n in such a column therefore denotes the
+// REAL n and is accepted as equal to it.
+var c27RealCols = map[string]map[int]bool{"a": {2: true}}
+
+func c27RowFromCDC(table string, r *command.CDCRow) c27Row {
+	out := c27RowFromCDCRaw(r)
+	for i := range out {
+		if n, ok := out[i].(int64); ok && c27RealCols[table][i] && int64(float64(n)) == n {
+			out[i] = float64(n)
+		}
+	}
+	return out
+}
+
+func c27RowFromCDCRaw(r *command.CDCRow) c27Row {
 	out := make(c27Row, len(r.Values))
 	for i, v := range r.Values {
 		switch x := v.GetValue().(type) {
@@ -453,7 +475,7 @@ func c27Replay(before, after c27State, groups []*command.CDCIndexedEventGroup, f
 					if ev.OldRow != nil {
 						return where + ": INSERT with a before-image"
 					}
-					tbl[ev.NewRowId] = c27RowFromCDC(ev.NewRow)
+					tbl[ev.NewRowId] = c27RowFromCDC(ev.Table, ev.NewRow)
 				}
 			case command.CDCEvent_UPDATE:
 				old, exists := tbl[ev.OldRowId]
@@ -464,7 +486,7 @@ func c27Replay(before, after c27State, groups []*command.CDCIndexedEventGroup, f
 					if ev.NewRow == nil || len(ev.NewRow.Values) != len(cols[ev.Table]) {
 						return where + ": UPDATE without a complete after-image"
 					}
-					if !c27RowEq(old, ev.OldRow) {
+					if !c27RowEq(ev.Table, old, ev.OldRow) {
 						return where + ": before-image differs from the row, which is " + c27RenderRaw(old)
 					}
 				}
@@ -475,7 +497,7 @@ func c27Replay(before, after c27State, groups []*command.CDCIndexedEventGroup, f
 				if idsOnly {
 					tbl[ev.NewRowId] = nil
 				} else {
-					tbl[ev.NewRowId] = c27RowFromCDC(ev.NewRow)
+					tbl[ev.NewRowId] = c27RowFromCDC(ev.Table, ev.NewRow)
 				}
 			case command.CDCEvent_DELETE:
 				old, exists := tbl[ev.OldRowId]
@@ -486,7 +508,7 @@ func c27Replay(before, after c27State, groups []*command.CDCIndexedEventGroup, f
 					if ev.NewRow != nil {
 						return where + ": DELETE with an after-image"
 					}
-					if !c27RowEq(old, ev.OldRow) {
+					if !c27RowEq(ev.Table, old, ev.OldRow) {
 						return where + ": before-image differs from the row, which is " + c27RenderRaw(old)
 					}
 				}
@@ -708,40 +730,106 @@ var c27KnownWhat = map[string]string{
 	"C27/phantom-events-from-failed-statement-in-explicit-tx": "events of a statement that failed inside an explicit transaction are emitted when the transaction commits",
 }
 
-func c27Run(rt *rapid.T, rec *vstat.Rec, c c27Case) {
-	dir, err := os.MkdirTemp("", "c27")
+// ---------------------------------------------------------------- store environment
+
+type c27Layer struct{ net.Listener }
+
+func (l *c27Layer) Dial(addr string, timeout time.Duration) (net.Conn, error) {
+	return net.DialTimeout("tcp", addr, timeout)
+}
+
+type c27Env struct {
+	s   *store.Store
+	dir string
+	cdc bool
+}
+
+func c27NewEnv() (*c27Env, error) {
+	dir, err := os.MkdirTemp("", "c27store")
 	if err != nil {
-		rt.Skipf("infrastructure: %v", err)
+		return nil, err
 	}
-	defer os.RemoveAll(dir)
-	path := filepath.Join(dir, "c27.db")
-	rdb, err := rdbpkg.Open(path, true, true)
+	ln, err := net.Listen("tcp", "127.0.0.1:0")
 	if err != nil {
-		rt.Skipf("infrastructure: %v", err)
+		os.RemoveAll(dir)
+		return nil, err
 	}
-	defer rdb.Close()
-	for _, s := range append(append([]string{}, c27Schema...), c.Init...) {
-		r, err := rdb.ExecuteStringStmt(s)
-		if err != nil || len(r) != 1 || c27IsErr(r[0]) {
-			rt.Skipf("infrastructure: setup %q: %v %v", s, err, r)
+	cfg := store.NewDBConfig()
+	cfg.FKConstraints = true
+	s := store.New(&store.Config{DBConf: cfg, Dir: dir, ID: "c27", Logger: log.New(io.Discard, "", 0)}, &c27Layer{ln})
+	if err := s.Open(); err != nil {
+		ln.Close()
+		os.RemoveAll(dir)
+		return nil, err
+	}
+	if err := s.Bootstrap(store.NewServer(s.ID(), s.Addr(), true)); err != nil {
+		s.Close(true)
+		os.RemoveAll(dir)
+		return nil, err
+	}
+	if _, err := s.WaitForLeader(30 * time.Second); err != nil {
+		s.Close(true)
+		os.RemoveAll(dir)
+		return nil, err
+	}
+	return &c27Env{s: s, dir: dir}, nil
+}
+
+func (e *c27Env) close() {
+	e.s.Close(true)
+	os.RemoveAll(e.dir)
+}
+
+func (e *c27Env) exec(tx bool, stmts ...string) ([]*command.ExecuteQueryResponse, error) {
+	req := &command.ExecuteRequest{Request: &command.Request{Transaction: tx}}
+	for _, s := range stmts {
+		req.Request.Statements = append(req.Request.Statements, &command.Statement{Sql: s})
+	}
+	rs, _, err := e.s.Execute(context.Background(), req)
+	return rs, err
+}
+
+// reset recreates the schema and the initial rows with CDC switched off.
+func (e *c27Env) reset(c c27Case) error {
+	if e.cdc {
+		if err := e.s.DisableCDC(); err != nil {
+			return err
+		}
+		e.cdc = false
+	}
+	e.exec(false, "ROLLBACK")
+	stmts := []string{"DROP TABLE IF EXISTS c", "DROP TABLE IF EXISTS a", "DROP TABLE IF EXISTS b", "DROP TABLE IF EXISTS log"}
+	stmts = append(stmts, c27Schema...)
+	stmts = append(stmts, c.Init...)
+	rs, err := e.exec(true, stmts...)
+	if err != nil {
+		return err
+	}
+	if len(rs) != len(stmts) {
+		return fmt.Errorf("reset ran %d of %d statements", len(rs), len(stmts))
+	}
+	for i, r := range rs {
+		if c27IsErr(r) {
+			return fmt.Errorf("reset statement %q failed: %v", stmts[i], r)
 		}
 	}
-	ch := make(chan *command.CDCIndexedEventGroup, 1024)
-	streamer, err := rdbpkg.NewCDCStreamer(ch, rdb)
-	if err != nil {
+	return nil
+}
+
+func c27Run(rt *rapid.T, rec *vstat.Rec, env *c27Env, c c27Case) {
+	if err := env.reset(c); err != nil {
 		rt.Skipf("infrastructure: %v", err)
 	}
+	ch := make(chan *command.CDCIndexedEventGroup, 1024)
 	var filter *regexp.Regexp
 	if c.Filter != "" {
 		filter = regexp.MustCompile(c.Filter)
 	}
-	if err := rdb.RegisterPreUpdateHook(streamer.PreupdateHook, filter, c.IDsOnly); err != nil {
-		rt.Skipf("infrastructure: %v", err)
+	if err := env.s.EnableCDC(ch, filter, c.IDsOnly); err != nil {
+		rt.Skipf("infrastructure: EnableCDC: %v", err)
 	}
-	if err := rdb.RegisterCommitHook(streamer.CommitHook); err != nil {
-		rt.Skipf("infrastructure: %v", err)
-	}
-	v, err := vsql.Open(path)
+	env.cdc = true
+	v, err := vsql.Open(filepath.Join(env.dir, "db.sqlite"))
 	if err != nil {
 		rt.Skipf("infrastructure: %v", err)
 	}
@@ -759,6 +847,20 @@ func c27Run(rt *rapid.T, rec *vstat.Rec, c c27Case) {
 		}
 		rows.Close()
 	}
+	// the starting state must be what the case says (shared store)
+	start, err := c27Snapshot(v, cols)
+	if err != nil {
+		rt.Skipf("infrastructure: snapshot: %v", err)
+	}
+	nInitA := 0
+	for _, s := range c.Init {
+		if strings.HasPrefix(s, "INSERT INTO a(") {
+			nInitA++
+		}
+	}
+	if len(start["a"]) != nInitA || len(start["log"]) != len(start["b"]) {
+		rt.Skipf("infrastructure: shared store not in the initial state")
+	}
 
 	totalEvents, anyFailedStmt, multi := 0, false, false
 	type pending struct {
@@ -770,20 +872,20 @@ func c27Run(rt *rapid.T, rec *vstat.Rec, c c27Case) {
 		if err != nil {
 			rt.Skipf("infrastructure: snapshot: %v", err)
 		}
-		streamer.Reset(uint64(100 + ri))
 		preq := &command.Request{Transaction: req.Tx}
 		for _, s := range req.Stmts {
 			preq.Statements = append(preq.Statements, &command.Statement{Sql: s.SQL})
 		}
 		var rs []*command.ExecuteQueryResponse
+		var rerr error
 		if req.Path == "execute" {
-			rs, _ = rdb.Execute(preq, false)
+			rs, _, rerr = env.s.Execute(context.Background(), &command.ExecuteRequest{Request: preq})
 		} else {
-			rs, _ = rdb.Request(preq, false)
+			rs, _, _, rerr = env.s.Request(context.Background(), &command.ExecuteQueryRequest{Request: preq})
 		}
-		// never leave a transaction open behind a request (a statement such as
-		// COMMIT may have been skipped after an error)
-		rdb.ExecuteStringStmt("ROLLBACK")
+		if rerr == store.ErrNotLeader || rerr == store.ErrNotReady || rerr == store.ErrNotOpen {
+			rt.Skipf("infrastructure: %v", rerr)
+		}
 		var groups []*command.CDCIndexedEventGroup
 	drain:
 		for {
@@ -848,6 +950,7 @@ func c27Run(rt *rapid.T, rec *vstat.Rec, c c27Case) {
 		if r.Tx {
 			seen["req:tx-flag"] = true
 		}
+		seen["path="+r.Path] = true
 		for _, s := range r.Stmts {
 			seen["class:"+s.Class] = true
 		}
@@ -863,11 +966,15 @@ func c27Run(rt *rapid.T, rec *vstat.Rec, c c27Case) {
 	}
 }
 
-func TestVerif_C27_DB(t *testing.T) {
-	_ = context.Background
-	rec := vstat.New(t, "C27", "db",
-		"rapid: 1-3 write requests of 1-5 statements (single/multi-row INSERT, OR REPLACE/IGNORE/FAIL, UPSERT, UPDATE incl. rowid-changing, UNIQUE-violating, OR REPLACE and no-op, DELETE incl. whole table and FK cascade, trigger-driven writes, FK/UNIQUE/PK failures after earlier rows of the statement fired, syntax errors, explicit BEGIN..COMMIT/ROLLBACK, transaction flag on/off, Execute and Request paths) over four tables with INTEGER/REAL/TEXT/BLOB/NUMERIC/untyped columns, rowid alias and plain rowid, values of every storage class; table filter none/5 regexes, row-ids-only on/off; non-trivial = events were emitted and the program has a failing statement or a multi-event group; distinct by full program text")
+func TestVerif_C27_Store(t *testing.T) {
+	rec := vstat.New(t, "C27", "store",
+		"rapid: 1-3 write requests of 1-5 statements (single/multi-row INSERT, OR REPLACE/IGNORE/FAIL, UPSERT, UPDATE incl. rowid-changing, UNIQUE-violating, OR REPLACE and no-op, DELETE incl. whole table and FK cascade, trigger-driven writes, FK/UNIQUE/PK failures after earlier rows of the statement fired, syntax errors, explicit BEGIN..COMMIT/ROLLBACK, transaction flag on/off, Store.Execute and Store.Request) over four tables with INTEGER/REAL/TEXT/BLOB/NUMERIC/untyped columns, rowid alias and plain rowid, values of every storage class; Store.EnableCDC with table filter none/5 regexes, row-ids-only on/off; one real single-node store per process, schema recreated (CDC off) per case; non-trivial = events were emitted and the program has a failing statement or a multi-event group; distinct by full program text")
+	env, err := c27NewEnv()
+	if err != nil {
+		t.Skipf("infrastructure: %v", err)
+	}
+	defer env.close()
 	rapid.Check(t, func(rt *rapid.T) {
-		c27Run(rt, rec, c27GenCase(rt))
+		c27Run(rt, rec, env, c27GenCase(rt))
 	})
 }
